@@ -87,6 +87,13 @@ def gen_attrs(rng, target):
         attrs[5] = updenc.tlv(0x40, 5, struct.pack('>I', rng.below(1 << 32)))
     if rng.chance(1, 3):
         attrs[32] = updenc.tlv(0xc0, 32, bytes(rng.below(256) for _ in range(12 * rng.below(4))))
+    # the rarer recognised types, each with the flags RFC 4271 / 4360 / 5701 / 4456 / 9234 give it (the oracle's own table)
+    r = lambda n: bytes(rng.below(256) for _ in range(n))
+    for code, val in ((6, lambda: b''), (7, lambda: r(8)), (9, lambda: r(4)), (10, lambda: r(4 * rng.below(4))),
+                      (16, lambda: r(8 * rng.below(4))), (25, lambda: r(20 * rng.below(3))), (35, lambda: r(4)),
+                      (20, lambda: r(4)), (21, lambda: bytes([rng.below(256)]) + r(4))):
+        if rng.chance(1, 6):
+            attrs[code] = updenc.tlv(updenc.CANON[code], code, val())
     cur = sum(len(v) for v in attrs.values())
     if cur > target:
         # drop until it fits
